@@ -244,9 +244,10 @@ class TelegramQueue:
         """Run registered callbacks. Don't propagate exceptions."""
         # iterate over a copy - a callback may unregister itself
         for callback in tuple(self.telegram_received_cbs):
-            if not callback.is_within_filter(telegram):
-                continue
             try:
+                # an address filter raises for an address of an incompatible level
+                if not callback.is_within_filter(telegram):
+                    continue
                 callback.callback(telegram)
             except Exception:  # pylint: disable=broad-except
                 logger.exception(
